@@ -278,7 +278,7 @@ def rule_c(ctx, init, tabs):
     ctx.floor(R, 4)
 
 
-def _num_voxels_calls(m, init):
+def _num_voxels_calls(m, init, grid=(2, 3)):
     """Constructor folded statement-wise on a 2 x 3 patch grid with the coordinate system's own num_voxels folded on every call:
     [(length term, axis argument, result term)]."""
     from ..fold import Folder, Obj, Opaque, Raised, Refuse, Sym
@@ -308,7 +308,7 @@ def _num_voxels_calls(m, init):
                         "num_voxels": [Opaque("int", "N0"), Opaque("int", "N1")], "origin": Opaque("coord", "ORIGIN"), "subregion": lambda a, k: Sym("SUB", a, k)})
     so = Obj("self", {"__class__": "Patches"})
     p = init.params
-    env = {p[0]: so, p[1]: base, p[2]: [2, 3]}
+    env = {p[0]: so, p[1]: base, p[2]: list(grid)}
     if len(p) > 3:
         env[p[3]] = {"rel_overlap": Opaque("f", "REL")}
     for st in init.node.body:
@@ -328,7 +328,8 @@ def rule_e(ctx, init):
     from ..terms import nf
 
     m = ctx.model
-    sem = _num_voxels_calls(m, init)
+    # 3 x 4 patches: a list of two entries is then a list over the two patched axes, never a list over the patches along one axis
+    sem = _num_voxels_calls(m, init, grid=(3, 4))
     envs = [x for x in sem if x and x[0] == "__env__"]
     if not envs:
         ctx.ob(R, init.qname, "per-axis lists depend on their own axis only", False, "fold of the constructor not found", init.node)
@@ -457,7 +458,7 @@ def same_term(a, b):
 
 def run(ctx):
     ctx.consult(MOD)
-    init = ctx.model.func(MOD, "Patches.__init__")
+    init = real_init = ctx.model.func(MOD, "Patches.__init__")
     tc = table_comps(init)
     plain = len(tc) == len(TABLES) and all(norm(o.generators[0].iter) == "range(self.num_patches[0])" and norm(i_.generators[0].iter) == "range(self.num_patches[1])"
                                            for o, i_, _e, _s in tc.values())
@@ -486,5 +487,6 @@ def run(ctx):
     rule_a(ctx, init, tabs)
     rule_b(ctx, init, tabs)
     rule_c(ctx, init, tabs)
-    rule_d(ctx, init)
-    rule_e(ctx, init)
+    # semantic folds: always of the code as it is, never of the documented construction
+    rule_d(ctx, real_init)
+    rule_e(ctx, real_init)
